@@ -57,7 +57,7 @@ func run(c *lib.Ctx) {
 	}
 
 	p := &parent{c: c, replay: replay}
-	for len(cases) > 0 {
+	for len(cases) > 0 && !p.abort {
 		n := batchSize
 		if n > len(cases) {
 			n = len(cases)
@@ -74,6 +74,14 @@ type parent struct {
 	launch  int
 	cleanup bool
 	wedges  int
+
+	setupFails int
+	abort      bool
+}
+
+func reFatalAny(log []byte) bool {
+	_, _, _, ok := crashClass(string(log))
+	return ok
 }
 
 // runBatch runs the cases in child processes: one child as long as it survives; after a
@@ -142,8 +150,11 @@ func (p *parent) runBatch(cases []Spec) {
 		doneIDs := map[int]bool{}
 		curID := -1
 		next := -2
+		reason, note := "", ""
 		for _, e := range evs {
 			switch e.T {
+			case "note":
+				note = e.What
 			case "cur":
 				curID = e.Case
 			case "done":
@@ -167,7 +178,7 @@ func (p *parent) runBatch(cases []Spec) {
 			case "inc":
 				c.Inconclusive(e.What)
 			case "exit":
-				next = e.Case
+				next, reason = e.Case, e.Reason
 			}
 		}
 		code := 0
@@ -179,6 +190,26 @@ func (p *parent) runBatch(cases []Spec) {
 		}
 		// (the race runtime replaces the exit status by 66 when it has reported a race, so
 		// the child's own "exit" event decides, not the status)
+		// a rig that could not be set up (no free port, port clash) or a child that ended
+		// before its first case without a crash report (the in-process teamserver calls
+		// os.Exit(0) when it cannot bind): retry the same cases a few times
+		if reason == "observer-rejected" {
+			// no authenticated observer can be had on this tree: the violation is recorded,
+			// nothing else can be judged
+			c.Eval()
+			p.abort = true
+			return
+		}
+		if logb, _ := os.ReadFile(base + ".log"); reason == "setup" || (curID < 0 && reason == "" && !reFatalAny(logb)) {
+			p.setupFails++
+			if p.setupFails >= 4 {
+				c.Inconclusive(fmt.Sprintf("rig could not be set up %d times in a row (%s); %d cases not run", p.setupFails, note, len(cases)))
+				return
+			}
+			time.Sleep(time.Duration(p.setupFails) * time.Second)
+			continue
+		}
+		p.setupFails = 0
 		switch {
 		case (code == exitDone || code == 66) && next == -1:
 			os.Remove(base + ".log")
